@@ -36,7 +36,7 @@ m = {
     ],
     "checks": checks,
     "not_applicable": na,
-    "notes": "Family: machine-checked proof in Lean 4. Every check = (theorems re-checked + axiom audit) + (correspondence model vs real code) + (direct oracle on the real code). See DESIGN.md (§11 dated changes, §12 seeded changes: 156 kept in seeded/, re-run by tools/run_seeded.sh; benign/: 24 behaviour-preserving rewrites that must raise no alarm, tools/run_benign.sh; known_findings.json: recorded and repaired defects).",
+    "notes": "Family: machine-checked proof in Lean 4. Every check = (theorems re-checked + axiom audit) + (correspondence model vs real code) + (direct oracle on the real code). See DESIGN.md (§11 dated changes, §12 seeded changes: 167 kept in seeded/, re-run by tools/run_seeded.sh; benign/: 24 behaviour-preserving rewrites that must raise no alarm, tools/run_benign.sh; known_findings.json: recorded and repaired defects).",
 }
 json.dump(m, open(os.path.join(V, "MANIFEST.json"), "w"), indent=1)
 print("claimed:", claimed)
